@@ -35,6 +35,12 @@ def eval_range(t, gen_calls=(), env=None, depth=0):
         if any(g in t[1] for g in gen_calls):
             return (0, (1 << 64) - 1)
         name = t[1].split(" => ")[0]
+        if name.endswith("::to_bits") and t[2]:
+            a0 = T.strip(t[2][0], refs=True) if hasattr(T, "strip") else t[2][0]
+            if a0[0] == "const" and a0[1] in ("f32", "f64") and isinstance(a0[2], (int, float)):
+                import struct
+                v = struct.unpack("<I", struct.pack("<f", float(a0[2])))[0] if a0[1] == "f32" else struct.unpack("<Q", struct.pack("<d", float(a0[2])))[0]
+                return (v, v)
         if name.endswith("cmp::Ord::max") or name.endswith("cmp::Ord::min"):
             rs = [eval_range(a, gen_calls, env, depth + 1) for a in t[2][:2]]
             known = [r for r in rs if r is not None]
